@@ -69,7 +69,10 @@ def run(ctx):
                   "(needs %s >= 0 and %s >= 0)" % (L.show(g1), L.show(g2)), observed=sorted(set(descr)))
         # payload = the compressed buffer whose length is the block size
         blkn = _enclosing_block(ix, l)
-        ext = [x for x in hq.find(blkn, lambda x: x.get("k") == "MethodCall" and x["name"] in ("extend", "extend_from_slice"))]
+        # the payload write that follows this header on the same path (same path conditions, later in the block)
+        lc = sorted(dom.conds(ix, l))
+        ext = [x for x in hq.find(blkn, lambda x: x.get("k") == "MethodCall" and x["name"] in ("extend", "extend_from_slice"))
+               if x["sp"][0] > l["sp"][1] and sorted(dom.conds(ix, x)) == lc]
         pv = hq.Canon(b, inline=True, force=True, max_depth=3)
         payload = ix.canon(ext[0]["args"][0]) if len(ext) == 1 else None
         ok = payload is not None and ix.canon(f["block_size"]) == "(alloc::vec::Vec::len(%s) as u32)" % payload
@@ -95,7 +98,12 @@ def run(ctx):
         push = [x for x in hq.find(blkn, lambda x: x.get("k") == "MethodCall" and x["name"] == "push" and H.show(hq.peel(x["recv"])) == "output")]
         ok = ok and len(push) == 1 and pv(push[0]["args"][0]) == "$2[0]" and pv(f["block_size"]) == "(alloc::vec::Vec::len($2) as u32)"
         cl = [x for x in hq.find(b["body"], lambda x: x.get("k") == "Closure")]
-        okc = len(cl) == 1 and H.show(cl[0]["body"]) in ("uncompressed_data[0].eq(x)", "(uncompressed_data[0] == *x)", "x.eq(&uncompressed_data[0])")
+        okc = False
+        if len(cl) == 1:
+            cb_ = hq.peel(cl[0]["body"])
+            if cb_.get("k") == "Binary" and cb_["op"] == "==":          # (a.eq(b) is a == b in normal form)
+                ops = {ix.canon(cb_["l"]), ix.canon(cb_["r"])}
+                okc = "$2[0]" in ops and any(o.lstrip('@').startswith('"closure-arg"') for o in ops) and len(ops) == 2
         # the test ranges over *every* byte: `<data>.iter().all(..)` directly on the block
         cn = [p_ for p_ in ix.path_conditions(l) if p_["kind"] == "if"]
         okall = False
